@@ -456,3 +456,72 @@ Proof.
   - unfold is_dotdot. apply bytes_eqb_neq. intro E. rewrite E in L. discriminate.
 Qed.
 Local Close Scope N_scope.
+
+(* ---------- more split / join ---------- *)
+Lemma split_on_nonnil : forall c s, split_on c s <> [].
+Proof.
+  induction s as [|x s IH]; simpl; [discriminate|].
+  destruct (Ascii.eqb x c); [discriminate|]. destruct (split_on c s); discriminate.
+Qed.
+
+Lemma split_on_app_gen : forall c a r, split_on c (a ++ c :: r) = split_on c a ++ split_on c r.
+Proof.
+  induction a as [|x a IH]; intro r.
+  - simpl. rewrite Ascii.eqb_refl. reflexivity.
+  - simpl. destruct (Ascii.eqb x c).
+    + rewrite IH. reflexivity.
+    + rewrite IH. destruct (split_on c a) as [|h t] eqn:E; [exfalso; eapply split_on_nonnil; exact E|].
+      reflexivity.
+Qed.
+
+Lemma join_split : forall c s, join [c] (split_on c s) = s.
+Proof.
+  induction s as [|x s IH]; [reflexivity|]. simpl.
+  destruct (Ascii.eqb x c) eqn:E.
+  - apply Ascii.eqb_eq in E. subst x.
+    destruct (split_on c s) as [|h t] eqn:Es; [exfalso; eapply split_on_nonnil; exact Es|].
+    change (join [c] ([] :: h :: t)) with ([] ++ [c] ++ join [c] (h :: t)). rewrite IH. reflexivity.
+  - destruct (split_on c s) as [|h t] eqn:Es; [exfalso; eapply split_on_nonnil; exact Es|].
+    destruct t as [|h2 t2].
+    + simpl in *. congruence.
+    + change (join [c] ((x :: h) :: h2 :: t2)) with ((x :: h) ++ [c] ++ join [c] (h2 :: t2)).
+      change (join [c] (h :: h2 :: t2)) with (h ++ [c] ++ join [c] (h2 :: t2)) in IH.
+      simpl in *. congruence.
+Qed.
+
+Lemma join_app : forall c es fs, es <> [] -> fs <> [] ->
+  join [c] (es ++ fs) = join [c] es ++ c :: join [c] fs.
+Proof.
+  induction es as [|x t IH]; intros fs N1 N2; [congruence|].
+  destruct t as [|y u].
+  - simpl. destruct fs; [congruence|]. reflexivity.
+  - change ((x :: y :: u) ++ fs) with (x :: (y :: u) ++ fs).
+    rewrite join_app_split by (simpl; discriminate).
+    rewrite IH by (discriminate || exact N2).
+    rewrite (join_app_split c x (y :: u)) by discriminate.
+    rewrite <- app_assoc. reflexivity.
+Qed.
+
+Lemma join_inj : forall c es fs, es <> [] -> fs <> [] ->
+  Forall (no_byte c) es -> Forall (no_byte c) fs -> join [c] es = join [c] fs -> es = fs.
+Proof.
+  intros c es fs N1 N2 F1 F2 E.
+  rewrite <- (split_join c es N1 F1), <- (split_join c fs N2 F2), E. reflexivity.
+Qed.
+
+(* join es ++ "/" is a prefix of join fs  iff  es is a proper list prefix of fs *)
+Lemma prefix_components : forall c es fs, es <> [] -> fs <> [] ->
+  Forall (no_byte c) es -> Forall (no_byte c) fs ->
+  (has_prefix (join [c] es ++ [c]) (join [c] fs) = true <-> exists r, r <> [] /\ fs = es ++ r).
+Proof.
+  intros c es fs N1 N2 F1 F2. split.
+  - intro H. apply has_prefix_iff in H. destruct H as [rest H].
+    rewrite <- app_assoc in H. simpl in H.
+    assert (S : split_on c (join [c] fs) = split_on c (join [c] es ++ c :: rest)) by (rewrite H; reflexivity).
+    rewrite split_join in S by assumption. rewrite split_on_app_gen, split_join in S by assumption.
+    exists (split_on c rest). split; [apply split_on_nonnil | exact S].
+  - intros [r [Nr ->]]. rewrite join_app by assumption.
+    replace (join [c] es ++ c :: join [c] r) with ((join [c] es ++ [c]) ++ join [c] r)
+      by (rewrite <- app_assoc; reflexivity).
+    apply has_prefix_app.
+Qed.
